@@ -749,7 +749,8 @@ class NpCalls:
         x = as_array(args[0])
         m = mono_of(x)
         return x.only('ty', 'geo', 'axes').w(deps=self.deps_of(args, kwargs), store='fresh', mono=m.wrap('diff') if m is not None else None,
-                                             diff_of=x, signed=True, diff_src=interp.sx(node.args[0]) if (node is not None and node.args) else None)
+                                             diff_of=x, signed=True, diff_src=interp.sx(node.args[0]) if (node is not None and node.args) else None,
+                                             diff_kw={k: self.arg(args, kwargs, i, k) for i, k in ((1, 'n'), (2, 'axis'), (3, 'prepend'), (4, 'append'))})
 
     def np_maximum_accumulate(self, interp, st, args, kwargs, node):
         if 'out' in kwargs:
